@@ -149,8 +149,14 @@ class Engine:
         self.decided = {}     # atoms already decided on this path (the path condition only grows)
 
     # -- variables ----------------------------------------------------------------------
+    INT_BOUND = 2 ** 40      # charges / ids are NumPy int64 in the real code: the claim is for |q| <= 2^40 (sums stay far below 2^63)
+
     def sym(self, name, kind='real', role='input'):
-        return Sym.var(newvar(name, kind, role))
+        v = newvar(name, kind, role)
+        if kind == 'int' and not self.concrete:
+            x = self.lin.intvar(v)
+            self.isolver.add(x <= self.INT_BOUND, x >= -self.INT_BOUND)
+        return Sym.var(v)
 
     def csym(self, name, role='input'):
         a = newvar(name + '.re', 'real', role); b = newvar(name + '.im', 'real', role)
